@@ -9,7 +9,7 @@ for cfg in MC_*_bug_*.cfg; do
   file=$mod.tla
   [ -f MC_$mod.tla ] && file=MC_$mod.tla
   out=$(timeout 900 tlc -workers 4 -metadir /verif/work/tlc_refute_$$ -cleanup -noGenerateSpecTE -config $cfg $file 2>&1)
-  rm -rf /tmp/tlc_refute_$$
+  rm -rf /verif/work/tlc_refute_$$
   if echo "$out" | grep -qE "is violated|Temporal properties were violated|Deadlock reached"; then
     echo "refuted   $cfg ($(echo "$out" | grep -oE "(Invariant|Action property|Temporal propert[a-z]*) [A-Za-z]* ?(is|were) violated" | head -1))"
   else
